@@ -258,4 +258,9 @@ of capacity `n*S` (`core_count * speed`), each with consumption weight 1. -/
 def equalShare (S : Rat) (n k : Nat) : Rat :=
   if k ≤ n then S else S * n / k
 
+/-- the same for `k` execs of `t` threads each (`execution_start(size, t, …)`: `variable_new(action, 1/t, t*speed, 1)`,
+consumption weight 1): every variable gets `min(t*S, n*S/k)`; `t = 1` is `equalShare` -/
+def equalShareT (S : Rat) (n k t : Nat) : Rat :=
+  if k * t ≤ n then t * S else S * n / k
+
 end SgVerif.C21
